@@ -628,6 +628,11 @@ class Machine:
             f = self.db.fns.get(p)
             if f is not None:
                 return self.call_local(f, [], None)
+        if "uneval" in c and "promoted" not in c:
+            # a named constant whose initialiser body was extracted (aggregate-typed `const EMPTY: Self = ..`)
+            f = self.db.fns.get(c["uneval"])
+            if f is not None and f.get("arg_count", 0) == 0:
+                return self.call_local(f, [], None)
         if "uneval" in c and c["ty"]["k"] == "prim":
             # unevaluated const of a generic parent, e.g. `LEN` as a named const inside a macro
             raise Unsupported("unevaluated const %s" % c.get("dbg"))
